@@ -311,9 +311,11 @@ def r84(ctx):
     bts = [n for n in cfg.nodes if n.kind == "branch" and any(t and isinstance(e, ast.Compare) and isinstance(e.ops[0], ast.In) and isinstance(e.left, ast.Constant) and e.left.value == "current" for e, t in n.facts)]
     if not bts or not rets:
         raise AnalysisError("R-8.4: restart branch or `return config` not found in setup_config")
+    from .shared import _cfg_chain as _cfg_chain_, _cfg_env as _cfg_env_
+    _env_ = _cfg_env_(f)  # aliases such as  curr = config["current"]
     loops = []
     for n in walk_local(f):
-        if isinstance(n, ast.For) and "['current']['active']" in ast.unparse(n.iter).replace('"', "'"):
+        if isinstance(n, ast.For) and (_cfg_chain_(n.iter, _env_) == ["current", "active"] or "['current']['active']" in ast.unparse(n.iter).replace('"', "'")):
             # body must test isfile(.../traj.txt) and return None on failure
             okbody = False
             for t in [x for x in walk_local(n) if isinstance(x, ast.If)]:
@@ -339,8 +341,20 @@ def r84(ctx):
     gc = cfg_of(g)
     asserts = [n for n in walk_local(g) if isinstance(n, ast.Assert) and "os.path.isfile" in ast.unparse(n.test)]
     want = {"trajtxt": False, "ordertxt": False, "config": False}
+    gfl = flow_of(g)
     for a in asserts:
         arg = ast.unparse(a.test)
+        # the asserted name by its role: what it was built from (".../traj.txt", ".../order.txt"), or the
+        # loop variable over the referenced trajectory files
+        for c in [c for c in ast.walk(a.test) if isinstance(c, ast.Call) and dotted(c.func) == "os.path.isfile" and c.args]:
+            e, _ = deref(gfl, c.args[0], gfl.cfg.node_of(a))
+            txt = ast.unparse(e)
+            if "traj.txt" in txt:
+                want["trajtxt"] = True
+            elif "order.txt" in txt:
+                want["ordertxt"] = True
+            elif isinstance(c.args[0], ast.Name) and any(isinstance(l, ast.For) and c.args[0].id in {x.id for x in ast.walk(l.target) if isinstance(x, ast.Name)} for l in walk_local(g)):
+                want["config"] = True
         for k in want:
             if k in arg:
                 want[k] = True
